@@ -8,14 +8,15 @@
   a class that the grammar treats as a terminal has no constructor arguments.  `relabel_nodes`
   returns at once on such an instance and never looks at its arguments, whereas the traversal
   does, so without the hypothesis three of the four equalities are false
-  (`C11_terminal_args_witness`).  Programs of the grammar satisfy it: a class is a terminal of the
-  grammar exactly when it is concrete and has no fields.
+  (`C11_terminal_args_witness`).  Well-typed programs of an analysed grammar satisfy it
+  (`C11_wellTyped_args_match`, `C11_analysed_terminals_fieldless`): a registered class is a
+  terminal of the grammar exactly when it is concrete and has no fields.
 -/
 import GEVerif.Model.Labels
 import GEVerif.Lemmas.Labels
 
 namespace GEVerif.C11
-open GEVerif
+open GEVerif GEVerif.Labels
 
 /-! ### 1. The fold equals the flat-traversal specification -/
 
@@ -64,15 +65,43 @@ theorem C11_list_elements (g : Grammar) (c d e d' e' : Nat) (vs : List Val)
 /-- The hypothesis is necessary: an (ill-formed) instance of the field-less class `Lit` that
 carries an `Add(Lit, Lit)` argument is labelled as a terminal, the traversal sees the `Add`. -/
 theorem C11_terminal_args_witness :
-    ¬ ArgsMatchTerminality LabelsEx.g LabelsEx.badProg ∧
-    (relabel LabelsEx.g LabelsEx.badProg).nodes = 0 ∧ nodesSpec LabelsEx.g LabelsEx.badProg = 1 ∧
-    (relabel LabelsEx.g LabelsEx.badProg).weighted = 0 ∧ weightedSpec LabelsEx.g LabelsEx.badProg = 1 ∧
-    lookupCount (relabel LabelsEx.g LabelsEx.badProg).types (.cls 2) = 0 ∧
-      typeCountSpec LabelsEx.badProg (.cls 2) = 1 := by
+    ¬ ArgsMatchTerminality Ex.g Ex.badProg ∧
+    (relabel Ex.g Ex.badProg).nodes = 0 ∧ nodesSpec Ex.g Ex.badProg = 1 ∧
+    (relabel Ex.g Ex.badProg).weighted = 0 ∧ weightedSpec Ex.g Ex.badProg = 1 ∧
+    lookupCount (relabel Ex.g Ex.badProg).types (.cls 2) = 0 ∧
+      typeCountSpec Ex.badProg (.cls 2) = 1 := by
   refine ⟨?_, by decide, by decide, by decide, by decide, by decide, by decide⟩
   intro h
   have := h 1 0 0 _ (mem_subvalues_self _) (by decide)
   exact absurd this (by simp)
+
+/-! ### 1b. The hypothesis holds for every well-typed program of every analysed grammar
+
+`register_type` (`regTy`) files a class under the non-terminals unless it is concrete and
+field-less, for every grammar and whatever the fuel; a well-typed instance of a field-less class
+has no arguments. -/
+
+theorem C11_analysed_terminals_fieldless (spec : GrammarSpec) :
+    (analyse spec).terminalsFieldless = true :=
+  analyse_terminalsFieldless spec
+
+theorem C11_wellTyped_args_match (g : Grammar) (hg : g.terminalsFieldless = true)
+    (deps : List (String × Val)) (ty : Ty) (v : Val) (h : wt g deps ty v = true) :
+    ArgsMatchTerminality g v :=
+  (wt_fieldless_all g hg).1 deps ty v h
+
+/-- C11 for the programs C01 speaks about: every sub-value of a well-typed program of an analysed
+grammar is labelled by `relabel_nodes` with the flat-traversal specification; no side
+condition is left. -/
+theorem C11_wellTyped_every_node (spec : GrammarSpec) (deps : List (String × Val)) (ty : Ty) (v : Val)
+    (h : wt (analyse spec) deps ty v = true) :
+    ∀ x ∈ v.subvalues,
+      (relabel (analyse spec) x).nodes = nodesSpec (analyse spec) x ∧
+      (relabel (analyse spec) x).dtt = dttSpec (analyse spec) x ∧
+      (relabel (analyse spec) x).weighted = weightedSpec (analyse spec) x ∧
+      ∀ k, lookupCount (relabel (analyse spec) x).types k = typeCountSpec x k :=
+  C11_every_node _ v
+    (C11_wellTyped_args_match _ (C11_analysed_terminals_fieldless spec) deps ty v h)
 
 /-! ### 2. The label `dtt` against the depth of C03 -/
 
@@ -96,7 +125,7 @@ theorem C11_dtt_le_depth_container (g : Grammar) (v : Val) : dttSpec g v ≤ v.d
   omega
 
 theorem C11_dtt_list_witness :
-    dttSpec LabelsEx.g (.list 0 0 [.int 3]) = 1 ∧ (Val.list 0 0 [.int 3]).depth = 0 := by
+    dttSpec Ex.g (.list 0 0 [.int 3]) = 1 ∧ (Val.list 0 0 [.int 3]).depth = 0 := by
   decide
 
 theorem C11_depth_le_dtt_succ (g : Grammar) (v : Val) (h : ArgsMatchTerminality g v) :
@@ -185,38 +214,38 @@ had as `[Lit]` (element replaced in place, `gengy_labeled` not cleared).  The me
 trusts the stale labels: it reports 1 node, distance 1 and no `Add` beneath the `Block`, the
 structure has 2 nodes, distance 2 and one `Add`. -/
 theorem C11_memo_stale_witness :
-    ¬ CachesCorrect LabelsEx.g LabelsEx.staleProg ∧
-    (relabelMemo LabelsEx.g LabelsEx.staleProg).1.nodes = 1 ∧
-      nodesSpec LabelsEx.g LabelsEx.staleProg.erase = 2 ∧
-    (relabelMemo LabelsEx.g LabelsEx.staleProg).1.dtt = 1 ∧
-      dttSpec LabelsEx.g LabelsEx.staleProg.erase = 2 ∧
-    (relabelMemo LabelsEx.g LabelsEx.staleProg).1.weighted = 1 ∧
-      weightedSpec LabelsEx.g LabelsEx.staleProg.erase = 3 ∧
-    lookupCount (relabelMemo LabelsEx.g LabelsEx.staleProg).1.types (.cls 2) = 0 ∧
-      typeCountSpec LabelsEx.staleProg.erase (.cls 2) = 1 := by
+    ¬ CachesCorrect Ex.g Ex.staleProg ∧
+    (relabelMemo Ex.g Ex.staleProg).1.nodes = 1 ∧
+      nodesSpec Ex.g Ex.staleProg.erase = 2 ∧
+    (relabelMemo Ex.g Ex.staleProg).1.dtt = 1 ∧
+      dttSpec Ex.g Ex.staleProg.erase = 2 ∧
+    (relabelMemo Ex.g Ex.staleProg).1.weighted = 1 ∧
+      weightedSpec Ex.g Ex.staleProg.erase = 3 ∧
+    lookupCount (relabelMemo Ex.g Ex.staleProg).1.types (.cls 2) = 0 ∧
+      typeCountSpec Ex.staleProg.erase (.cls 2) = 1 := by
   refine ⟨?_, by decide, by decide, by decide, by decide, by decide, by decide, by decide, by decide⟩
   intro h
-  simp only [LabelsEx.staleProg, CachesCorrect, CachesCorrectList] at h
+  simp only [Ex.staleProg, CachesCorrect, CachesCorrectList] at h
   have := congrArg Lab.nodes (h.2.1.1 _ rfl)
   revert this
   decide
 
 /-! ### Non-vacuity -/
 
-open LabelsEx in
+open Ex in
 example : g.reg.nonTerminals = [.cls 2, .cls 3, .cls 4, .cls 0] := by decide
-open LabelsEx in
+open Ex in
 example : g.isTerminalCls 1 = true := by decide
 
 /-- `Block([Add(Lit, Lit), Pair((Lit, 3)), Lit])` satisfies the hypothesis -/
-private theorem prog_ok : ArgsMatchTerminality LabelsEx.g LabelsEx.prog := by
+private theorem prog_ok : ArgsMatchTerminality Ex.g Ex.prog := by
   intro c d e args hm ht
-  simp [LabelsEx.prog, Val.subvalues, Val.subvaluesList] at hm
+  simp [Ex.prog, Val.subvalues, Val.subvaluesList] at hm
   rcases hm with h | h | h | h | h | h <;> first
     | exact h.2.2.2
     | (obtain ⟨rfl, -, -, -⟩ := h; exact absurd ht (by decide))
 
-open LabelsEx in
+open Ex in
 example : (relabel g prog).nodes = 3 ∧ nodesSpec g prog = 3 ∧
     (relabel g prog).dtt = 2 ∧ dttSpec g prog = 2 ∧ prog.depth = 3 ∧
     (relabel g prog).weighted = 4 ∧ weightedSpec g prog = 4 ∧
@@ -226,22 +255,22 @@ example : (relabel g prog).nodes = 3 ∧ nodesSpec g prog = 3 ∧
 /-- the `Add` inside the list, the `Lit` inside the tuple inside the list, and the list itself -/
 example :
     let add := Val.node 2 2 0 [.node 1 3 0 [], .node 1 3 0 []]
-    add ∈ LabelsEx.prog.subvalues ∧ (relabel LabelsEx.g add).nodes = 1 ∧
-      (relabel LabelsEx.g add).dtt = 1 ∧ nodesSpec LabelsEx.g add = 1 := by
+    add ∈ Ex.prog.subvalues ∧ (relabel Ex.g add).nodes = 1 ∧
+      (relabel Ex.g add).dtt = 1 ∧ nodesSpec Ex.g add = 1 := by
   refine ⟨?_, by decide, by decide, by decide⟩
-  simp [LabelsEx.prog, Val.subvalues, Val.subvaluesList]
+  simp [Ex.prog, Val.subvalues, Val.subvaluesList]
 
-example := C11_every_node LabelsEx.g LabelsEx.prog prog_ok
-example := C11_depth_le_dtt_succ LabelsEx.g LabelsEx.prog prog_ok
+example := C11_every_node Ex.g Ex.prog prog_ok
+example := C11_depth_le_dtt_succ Ex.g Ex.prog prog_ok
 
 /-- memoisation, non-vacuously: a reused labelled `Add` under new unlabelled objects (a list and
 a tuple among them) -/
 private theorem reused_ok :
-    CachesCorrect LabelsEx.g LabelsEx.reusedProg ∧ LabelsEx.reusedProg.labelClosed = true ∧
-      ArgsMatchTerminality LabelsEx.g LabelsEx.reusedProg.erase := by
-  have hadd := C11_memo_step LabelsEx.g
+    CachesCorrect Ex.g Ex.reusedProg ∧ Ex.reusedProg.labelClosed = true ∧
+      ArgsMatchTerminality Ex.g Ex.reusedProg.erase := by
+  have hadd := C11_memo_step Ex.g
     (LVal.fresh (.node 2 2 0 [.node 1 3 0 [], .node 1 3 0 []]))
-    (fresh_ok LabelsEx.g _).1 (fresh_ok LabelsEx.g _).2
+    (fresh_ok Ex.g _).1 (fresh_ok Ex.g _).2
     (by
       rw [erase_fresh]
       intro c d e args hm ht
@@ -250,10 +279,10 @@ private theorem reused_ok :
         | exact h.2.2.2
         | (obtain ⟨rfl, -, -, -⟩ := h; exact absurd ht (by decide)))
   refine ⟨?_, by decide, ?_⟩
-  · simp only [LabelsEx.reusedProg, CachesCorrect, CachesCorrectList]
+  · simp only [Ex.reusedProg, CachesCorrect, CachesCorrectList]
     exact ⟨(fun l h => nomatch h), ⟨(fun l h => nomatch h), ⟨(fun l h => nomatch h), ⟨hadd.1, trivial, trivial⟩, trivial⟩, trivial⟩, trivial⟩
   · intro c d e args hm ht
-    have : LabelsEx.reusedProg.erase =
+    have : Ex.reusedProg.erase =
         .node 3 0 0 [.list 1 0 [.node 4 2 0 [.tuple [.node 2 2 0 [.node 1 3 0 [], .node 1 3 0 []], .int 3]]]] := by
       rfl
     rw [this] at hm
@@ -262,12 +291,31 @@ private theorem reused_ok :
       | exact h.2.2.2
       | (obtain ⟨rfl, -, -, -⟩ := h; exact absurd ht (by decide))
 
-example := C11_memo_every_node LabelsEx.g LabelsEx.reusedProg reused_ok.1 reused_ok.2.1 reused_ok.2.2
-example : (relabelMemo LabelsEx.g LabelsEx.reusedProg).1.nodes = 3 ∧
-    (relabelMemo LabelsEx.g LabelsEx.reusedProg).1.dtt = 3 ∧
-    LabelsEx.reusedProg.fullyLabelled = false := by decide
-example : (relabelMemo LabelsEx.g LabelsEx.reusedProg).2.fullyLabelled = true :=
-  (C11_memo_step LabelsEx.g LabelsEx.reusedProg reused_ok.1 reused_ok.2.1 reused_ok.2.2).2.1
-example : ¬ CachesCorrect LabelsEx.g LabelsEx.staleProg := C11_memo_stale_witness.1
+example := C11_memo_every_node Ex.g Ex.reusedProg reused_ok.1 reused_ok.2.1 reused_ok.2.2
+example : (relabelMemo Ex.g Ex.reusedProg).1.nodes = 3 ∧
+    (relabelMemo Ex.g Ex.reusedProg).1.dtt = 3 ∧
+    Ex.reusedProg.fullyLabelled = false := by decide
+example : (relabelMemo Ex.g Ex.reusedProg).2.fullyLabelled = true :=
+  (C11_memo_step Ex.g Ex.reusedProg reused_ok.1 reused_ok.2.1 reused_ok.2.2).2.1
+example : ¬ CachesCorrect Ex.g Ex.staleProg := C11_memo_stale_witness.1
+
+/-- `Block([Add(Lit, Lit), Pair((Lit, 3)), Lit])` is a well-typed `Expr` -/
+private theorem prog_wt : wt Ex.g [] (.cls 0) Ex.prog = true := by
+  have c1 : Ex.g.cls 1 = ⟨"Lit", false, some 0, []⟩ := rfl
+  have c2 : Ex.g.cls 2 = ⟨"Add", false, some 0, [("l", .cls 0), ("r", .cls 0)]⟩ := rfl
+  have c3 : Ex.g.cls 3 = ⟨"Block", false, some 0, [("body", .list (.cls 0))]⟩ := rfl
+  have c4 : Ex.g.cls 4 = ⟨"Pair", false, some 0, [("p", .tuple [.cls 0, .int])]⟩ := rfl
+  have p1 : isProdOf Ex.g (Ex.g.spec.classes.length + 1) 0 1 = true := by decide
+  have p2 : isProdOf Ex.g (Ex.g.spec.classes.length + 1) 0 2 = true := by decide
+  have p3 : isProdOf Ex.g (Ex.g.spec.classes.length + 1) 0 3 = true := by decide
+  have p4 : isProdOf Ex.g (Ex.g.spec.classes.length + 1) 0 4 = true := by decide
+  have r1 : Ex.g.reg.allNodes.contains (Sym.cls 1) = true := by decide
+  have r2 : Ex.g.reg.allNodes.contains (Sym.cls 2) = true := by decide
+  have r3 : Ex.g.reg.allNodes.contains (Sym.cls 3) = true := by decide
+  have r4 : Ex.g.reg.allNodes.contains (Sym.cls 4) = true := by decide
+  simp [Ex.prog, wt, wtFields, wtAll, wtTuple, c1, c2, c3, c4, p1, p2, p3, p4, r1, r2, r3, r4]
+
+example := C11_wellTyped_every_node Ex.spec [] (.cls 0) Ex.prog prog_wt
+example : Ex.g.terminalsFieldless = true := by decide
 
 end GEVerif.C11
